@@ -358,10 +358,12 @@ func (c *minecraftConn) bufferPacket(packet proto.Packet, canQueue bool) (err er
 		}
 	}()
 	if canQueue {
+		// Queue while holding the lock: releasing the queue (SetState/SetOutboundState)
+		// happens under the same lock, so a packet can no longer be pushed onto a queue
+		// that was just released and dropped (which would lose the packet).
 		c.mu.Lock()
-		playPacketQueue := c.playPacketQueue
+		queued, queueErr := c.playPacketQueue.Queue(packet)
 		c.mu.Unlock()
-		queued, queueErr := playPacketQueue.Queue(packet)
 		if queueErr != nil {
 			return queueErr
 		}
